@@ -391,6 +391,17 @@ def p_C03(ctx):
     ctx.replay(file_cases(runs), "files", "Trace_C03")
     ctx.replay(file_cases([dict(r, lm=True) for r in runs]), "files-lm", "Trace_C03")
     ctx.replay(rnd(ctx, 150, 5000, runs), "random", "Trace_C03")
+    # very small buildings and very small exports (hundredths of a kWh per step): the identity is one of exact arithmetic, no
+    # amount of exported energy is too small to be credited in proportion to k_exp
+    def tiny_exports():
+        for i, (use, pv) in enumerate((([0.05, 0.06], [0.08, 0.02]), ([0.30, 0.20], [0.33, 0.10]), ([0.02, 0.02], [0.05, 0.05]),
+                                       ([1.00, 0.50], [1.04, 0.10]), ([0.10, 0.10, 0.10], [0.12, 0.01, 0.14]))):
+            comps = [{"kind": "USED", "id": 0, "cr": "ELECTRICIDAD", "srv": "ILU", "src": "-", "v": use, "cm": ""},
+                     {"kind": "USED", "id": 0, "cr": "ELECTRICIDAD", "srv": "VEN", "src": "-", "v": [x / 2 for x in use], "cm": ""},
+                     {"kind": "PROD", "id": 0, "cr": "-", "srv": "-", "src": "EL_INSITU", "v": [round(a + b / 2, 3) for a, b in zip(pv, use)], "cm": ""}]
+            for loc in ("PENINSULA", "CANARIAS"):
+                yield {"name": "tiny-export", "src": {"comps": comps}, "fac": {"mode": "loc", "loc": loc}, "kexp": [0, 1], "area": [1, 1], "lm": False, "runs": runs}
+    ctx.replay(tiny_exports(), "tiny-exports", "Trace_C03")
     ctx.samples += ctx.sample_from_trace(ctx.last_trace, 1)
     # the same histories made with the real program: files that carry another k_exp (and an area) as metadata, the option
     # given as 0, 1 and interior values, and once not given at all (the metadata value 0.7 is then the one used)
